@@ -18,6 +18,7 @@ def generate(rng, n=None, cxx=False):
     n = n or rng.randint(8, 22)
     items = []
     types = []   # (spelling, needed item name or None)
+    int_typedefs = []
 
     def pick_type(allow_void=False):
         if types and rng.random() < 0.6:
@@ -93,10 +94,24 @@ def generate(rng, n=None, cxx=False):
             it.sub = "typedef"
             items.append(it)
             types.append((name, name))
+            if need is None and sp in ("int", "char", "unsigned long", "short"):
+                int_typedefs.append(name)
         elif r < 0.52:
             name = "E_" + sfx
             mem = ["%s_v%d" % (name, j) for j in range(rng.randint(1, 3))]
-            it = Item("type", name, "enum %s { %s };" % (name, ", ".join(mem)), [], mem)
+            if cxx and rng.random() < 0.7:
+                if not int_typedefs or rng.random() < 0.3:
+                    tn = "T_u" + sfx
+                    ti = Item("type", tn, "typedef %s %s;" % (rng.choice(["int", "char", "unsigned long", "short"]), tn), [])
+                    ti.sub = "typedef"
+                    items.append(ti)
+                    types.append((tn, tn))
+                    int_typedefs.append(tn)
+                # fixed underlying type spelled through a user typedef: the enum needs it (its repr / alias names it) whatever style it is emitted in
+                und = rng.choice(int_typedefs)
+                it = Item("type", name, "enum %s : %s { %s };" % (name, und, ", ".join(mem)), [und], mem)
+            else:
+                it = Item("type", name, "enum %s { %s };" % (name, ", ".join(mem)), [], mem)
             it.sub = "enum"
             items.append(it)
             types.append(("enum " + name, name))
